@@ -226,14 +226,16 @@ def run(ctx):
     ctx.rule = ("histories: random constructor (profile array / zeros / symmetric matrix / Players / GAM numbers / "
                 "polymatrix) of an N<=4-player game with 1..5 actions each (asymmetric), payoffs of class int "
                 "(int dtype), dyadic float, or doubles needing 17 significant digits, followed by <=4 calls drawn from "
-                "{get,set,del,pv,br,isbr,nash,dom,profarr,reprof,replayers,gam,logit,polyrt} incl. a malformed stream; "
+                "{get,set,del,delm,pv,br,isbr,nash,dom,profarr,reprof,replayers,gam,logit,polyrt} incl. a malformed stream; "
                 "non-trivial = N>=2 with at least two players having >=2 actions and at least one call; distinct by request line")
     tmpdir = tempfile.mkdtemp(prefix="c14_")
     cases = []
+    cur = {}    # description of the library call about to be made (for the replay if it raises)
 
     # ---- value classes ------------------------------------------------------------------------
     specials = [0.1, 0.2, 0.1 + 0.2, 1 / 3, 2 / 3, 1e-5, 1.0000000000000002, 123456.78901234567, -0.30000000000000004,
-                1e15 + 0.125, 5e-324, 2.2250738585072014e-308, 1e22, -1e-7, 3.141592653589793]
+                5e-324, 2.2250738585072014e-308, -1e-7, 3.141592653589793, 9007199254740993.0, 0.1 + 0.7]
+    huge = [1e15 + 0.125, 1e22]
 
     def value(cls):
         if cls == "int":
@@ -241,6 +243,8 @@ def run(ctx):
         if cls == "dyad":
             return rng.randint(-36, 36) / 4.0
         r = rng.random()
+        if r < 0.02:
+            return rng.choice(huge) * rng.choice([1, -1])
         if r < 0.25:
             return rng.choice(specials) * rng.choice([1, -1])
         return rng.uniform(-10, 10)
@@ -288,6 +292,7 @@ def run(ctx):
         if kind == "sym":
             n = rng.randint(2, 5)
             A = np.array([[value(cls) for _ in range(n)] for _ in range(n)], dtype=dt)
+            cur["call"] = {"ctor": "sym", "matrix": A.tolist()}
             g = NormalFormGame(A)
             u = {(a, b): (A[a, b].item(), A[b, a].item()) for a in range(n) for b in range(n)}
             return ("ctor=sym n=%d data=%s" % (n, rats(F(x) for x in A.ravel().tolist())), g, Truth((n, n), u), cls, False,
@@ -295,6 +300,7 @@ def run(ctx):
         nums = rand_nums()
         N = len(nums)
         if kind == "zeros":
+            cur["call"] = {"ctor": "zeros", "nums": list(nums)}
             g = NormalFormGame(nums) if cls != "int" else NormalFormGame(nums, dtype=int)
             u = {p: tuple([0 if cls == "int" else 0.0] * N) for p in itertools.product(*[range(n) for n in nums])}
             return ("ctor=zeros nums=%s" % ints(nums), g, Truth(nums, u), cls, True, {"ctor": "zeros", "nums": list(nums)})
@@ -302,7 +308,12 @@ def run(ctx):
             pcls = cls if cls != "f17" else "dyad"
             pm = {(i, j): np.array([[value(pcls) for _ in range(nums[j])] for _ in range(nums[i])], dtype=float)
                   for i in range(N) for j in range(N) if i != j}
-            g = PolymatrixGame(pm, nums_actions=nums).to_nfg()
+            cur["call"] = {"ctor": "poly", "nums": list(nums), "polymatrix": {"%d,%d" % k: v.tolist() for k, v in pm.items()}}
+            if rng.random() < 0.5:
+                g = PolymatrixGame(pm, nums_actions=nums).to_nfg()
+            else:       # numbers of players / actions inferred from the dictionary
+                g = PolymatrixGame(pm).to_nfg()
+                ctx.count("poly:inferred-nums")
             u = {}
             for p in itertools.product(*[range(n) for n in nums]):
                 u[p] = tuple(float(sum(F(pm[(i, j)][p[i], p[j]].item()) for j in range(N) if j != i)) for i in range(N))
@@ -316,6 +327,7 @@ def run(ctx):
         for p, v in u.items():
             D[p] = v
         rep = {"ctor": kind, "payoff_profile_array": D.tolist()}
+        cur["call"] = rep
         if kind == "players" or (kind == "poly"):
             pls = []
             for i in range(N):
@@ -411,6 +423,7 @@ def run(ctx):
                     kind = "range"
             key = tuple(prof) if N >= 2 else (prof[0] if len(prof) == 1 else tuple(prof))
             tprof = tuple(p % n for p, n in zip(prof, T.nums)) if not malformed else None
+            cur["call"] = "g[%r] (%s)" % (key, name)
             if name == "get":
                 try:
                     r = g[key]
@@ -434,9 +447,9 @@ def run(ctx):
                 key = tuple(prof)
                 ctx.count("set:wrong-value-length")
             if N == 2 and not malformed and np.shares_memory(g.players[0].payoff_array, g.players[1].payoff_array):
-                # both Players of a symmetric game sit on ONE ndarray: judge the write on a copy built the
-                # same way, report, and leave this call out of the history (the model describes players
-                # that own their arrays)
+                # both Players of a game sit on ONE ndarray (the symmetric-matrix constructor did this before
+                # fix b12fc74): judge the write on a copy built the same way and report it under its own key;
+                # the history goes on (the model describes players that own their arrays)
                 gc = NormalFormGame(g.players[0].payoff_array.copy())
                 gc[key] = vals
                 Tc = T.copy()
@@ -449,7 +462,6 @@ def run(ctx):
                                   "definition %r (both Players share one ndarray)" % (
                                       g.players[0].payoff_array.tolist(), key, vals, i, q, gc[q][i], Tc.u[q][i]),
                                   dict(replay, index=prof, values=vals))
-                return None
             try:
                 g[key] = vals if N >= 2 else vals[0]
                 out = "-"
@@ -484,6 +496,7 @@ def run(ctx):
                     pp = rng.choice([N, N + 1, -N - 1])
                 else:
                     aa = rng.choice([T.nums[p], -T.nums[p] - 1])
+            cur["call"] = "g.delete_action(%d, %d)" % (pp, aa)
             try:
                 g2 = g.delete_action(pp, aa)
                 out = "-"
@@ -493,6 +506,12 @@ def run(ctx):
                     # the old game is untouched, the new one is the definition's
                     check_views(ctx, g, T, "old game after delete_action(%d,%d)" % (pp, aa), dict(replay, player=pp, action=aa))
                     T = T.delete(p, a)
+                    # the Player-level method on every player's array (axis = player_idx - i, possibly negative)
+                    for i, pl in enumerate(g.players):
+                        q = pl.delete_action(aa, p - i)
+                        if q.payoff_array.tolist() != g2.players[i].payoff_array.tolist():
+                            ctx.spec_fail("player-delete", "Player.delete_action(%d, %d) of player %d differs from the game's" % (aa, p - i, i),
+                                          dict(replay, player=pp, action=aa))
                     g = g2
                     ctx.count("del:ok:axis-wrap" if p < N - 1 or True else "del:ok")
             except (IndexError, ValueError) as e:
@@ -501,6 +520,40 @@ def run(ctx):
                 if not bad and T.nums[p] > 1:
                     ctx.spec_fail("delete", "delete_action(%d,%d) raised %s" % (pp, aa, out), dict(replay, player=pp, action=aa))
             return "del:%d:%d" % (pp, aa), out, g, T, is_poly
+
+        if name == "delm":
+            p = rng.randrange(N)
+            n = T.nums[p]
+            k = rng.choice([0, 1, 1, 2, 2, 3, n - 1, n])
+            k = max(0, min(n, k))
+            dele = sorted(rng.sample(range(n), k))
+            acts = [a - n if rng.random() < 0.2 else a for a in dele]
+            rng.shuffle(acts)
+            if acts and rng.random() < 0.25:
+                acts.append(rng.choice(acts))
+                ctx.count("delm:duplicate")
+            bad = rng.random() < 0.08
+            if bad:
+                acts.append(rng.choice([n, -n - 1]))
+            pp = p - N if rng.random() < 0.2 else p
+            cur["call"] = "g.delete_action(%d, %s)" % (pp, acts)
+            try:
+                g2 = g.delete_action(pp, list(acts))
+                out = "-"
+                if bad or k == n:
+                    ctx.spec_fail("delete-malformed", "delete_action(%d,%s) accepted on %s" % (pp, acts, T.nums), dict(replay, player=pp, actions=acts))
+                else:
+                    check_views(ctx, g, T, "old game after delete_action(%d,%s)" % (pp, acts), dict(replay, player=pp, actions=acts))
+                    for a in reversed(dele):
+                        T = T.delete(p, a)
+                    g = g2
+                    ctx.count("delm:ok:k=%d" % min(k, 3))
+            except (IndexError, ValueError) as e:
+                out = "ERR:" + type(e).__name__
+                ctx.count("err:delm:" + type(e).__name__)
+                if not bad and k < n:
+                    ctx.spec_fail("delete", "delete_action(%d,%s) raised %s" % (pp, acts, out), dict(replay, player=pp, actions=acts))
+            return "delm:%d:%s" % (pp, ints(acts)), out, g, T, is_poly
 
         if name in ("pv", "br", "isbr"):
             i = rng.randrange(N)
@@ -518,6 +571,7 @@ def run(ctx):
             arg = as_arg(N, opps)
             player = g.players[i]
             rp = dict(replay, player=i, opponents=[o.tolist() if hasattr(o, "tolist") else o for o in opps])
+            cur["call"] = "players[%d].%s with opponents' actions %s" % (i, name, rp["opponents"])
             if bad:
                 try:
                     player.payoff_vector(arg)
@@ -583,9 +637,26 @@ def run(ctx):
 
         if name == "nash":
             prof = [rand_act(n, cls, 0.65) for n in T.nums]
-            # raise the chance of equilibria: make the profile a pure best-response fixed point now and then
+            # raise the chance of equilibria: follow pure best responses from a random profile now and then
+            if rng.random() < 0.55:
+                prof = [rng.randrange(n) for n in T.nums]
+                for _round in range(4):
+                    moved = False
+                    for i in range(N):
+                        ev = T.expect_vector(i, [prof[(i + 1 + k) % N] for k in range(N - 1)])
+                        b = max(range(len(ev)), key=lambda a: (ev[a], -a))
+                        if ev[b] > ev[prof[i]]:
+                            prof[i] = b
+                            moved = True
+                    if not moved:
+                        ctx.count("nash:br-fixed-point")
+                        break
+                if rng.random() < 0.3 and N >= 2:
+                    k = rng.randrange(N)
+                    prof[k] = rng.randrange(T.nums[k])
             tol = rand_tol(cls)
             tolv = F(1e-8) if tol is None else F(tol)
+            cur["call"] = "g.is_nash(%s, tol=%s)" % ([act_str(a) for a in prof], tol)
             ok = True
             for i in range(N):
                 opps = [prof[(i + 1 + k) % N] for k in range(N - 1)]
@@ -623,6 +694,7 @@ def run(ctx):
             kw = {} if tol is None else {"tol": tol}
             player = g.players[i]
             rp = dict(replay, player=i, action=a, tol=tol)
+            cur["call"] = "players[%d].is_dominated(%d, tol=%s)" % (i, a, tol)
             if N == 1:
                 r = bool(player.is_dominated(a, **kw))
                 want = max(ui(b, ()) for b in range(n)) > ui(a, ()) + tolv
@@ -670,6 +742,7 @@ def run(ctx):
                 return "dompure:%d:%d:%s" % (i, a, rat(tolv)), "b%d" % pure_dom, g, T, is_poly
             return ("domcert:%d:%d:%s:%s:%s:%s" % (i, a, rat(tolv), rats(x), rats(y), rat(v)), "b%d" % r, g, T, is_poly)
 
+        cur["call"] = name
         if name == "profarr":
             ppa = g.payoff_profile_array
             return "profarr", "v" + rats(F(x) for x in ppa.ravel().tolist()), g, T, is_poly
@@ -758,25 +831,98 @@ def run(ctx):
             return None
         return cmp
 
+    # ---- fixed regression inputs (defects found earlier; each once through the model as well) ----------------
+    def fixed(line, g, calls):
+        """calls: list of (token, function(g) -> (out string, g'))"""
+        outs = ["-#" + state_str(g)]
+        for tok, fn in calls:
+            out, g = fn(g)
+            outs.append(out + "#" + state_str(g))
+        cases.append(Case(line, "|".join(outs), tag="regression"))
+        return g
+
+    def _set(key, vals):
+        def fn(g):
+            g[key] = vals
+            return "-", g
+        return fn
+
+    def _get(key):
+        return lambda g: ("v" + rats(F(x) for x in np.atleast_1d(g[key]).tolist()), g)
+    # symmetric-matrix constructor: both players shared one ndarray (fixed in b12fc74)
+    A0 = np.array([[-2, -7], [-8, 4]])
+    g = fixed("C14 run ctor=sym n=2 data=-2,-7,-8,4 ops=set:1,0:-5,-3|get:0,1", NormalFormGame(A0),
+              [("set", _set((1, 0), (-5, -3))), ("get", _get((0, 1)))])
+    if list(g[0, 1]) != [-7, -8] or A0.tolist() != [[-2, -7], [-8, 4]]:
+        ctx.spec_fail("sym-shared-array", "NormalFormGame([[-2,-7],[-8,4]]); g[1,0]=(-5,-3) changed g[0,1] to %s / the "
+                      "caller's matrix to %s" % (list(g[0, 1]), A0.tolist()), {"matrix": [[-2, -7], [-8, 4]], "set": [1, 0]})
+    # LogitDynamics rewrote the payoffs in place (fixed in 170b964)
+    g = NormalFormGame(np.array([[4., 0.], [3., 2.]]))
+
+    def _logit(g):
+        LogitDynamics(g)
+        return "-", g
+    g = fixed("C14 run ctor=sym n=2 data=4,0,3,2 ops=logit|get:0,0", g, [("logit", _logit), ("get", _get((0, 0)))])
+    if g.players[0].payoff_array.tolist() != [[4., 0.], [3., 2.]]:
+        ctx.spec_fail("logit-inplace", "LogitDynamics(g) changed g's payoffs to %s" % g.players[0].payoff_array.tolist(), {})
+    # best_response with a perturbation on a 1-player game added it to the stored array (fixed in 1eb1fbb)
+    p1 = Player(np.array([1., 2., .5]))
+    g = NormalFormGame([p1])
+
+    def _br(g):
+        r = g.players[0].best_response(None, payoff_perturbation=np.array([.25, -3., 0.]), tie_breaking=False)
+        return "i" + ints(r), g
+    g = fixed("C14 run ctor=players shapes=3 datas=1,2,1/2 ops=br:0:-:%s:1/4,-3,0" % rat(F(1e-8)), g, [("br", _br)])
+    if g.players[0].payoff_array.tolist() != [1., 2., .5]:
+        ctx.spec_fail("br-perturbation-inplace", "best_response(payoff_perturbation=...) changed the stored payoffs", {})
+    # GAM text must carry every digit (fixed in 3cca173)
+    vals = [0.1, 0.2, 0.1 + 0.2, 1 / 3, 2 / 3, 123456.78901234567, 1e-5, -0.30000000000000004, 1.0000000000000002, 5e-324, 7.0, 0.7]
+    D = np.array(vals).reshape(3, 2, 2)
+    g0 = NormalFormGame(D)
+    g1 = GAMReader.from_string(GAMWriter.to_string(g0))
+    if g1.payoff_profile_array.tolist() != D.tolist():
+        ctx.spec_fail("gam-digits", "GAM round trip of a 3x2 game with 17-digit payoffs is not exact", {"payoff_profile_array": D.tolist()})
+
     alphabet = ["get", "set", "del", "pv", "br", "isbr", "nash", "dom", "profarr", "reprof", "replayers", "gam",
-                "logit", "polyrt"]
-    weights = [3, 5, 5, 5, 4, 4, 4, 4, 2, 2, 1, 3, 2, 2]
+                "logit", "polyrt", "delm"]
+    weights = [3, 5, 5, 5, 4, 4, 4, 4, 2, 2, 1, 3, 2, 2, 3]
 
     def history(names=None, game=None):
-        ctor, g, T, cls, is_poly, rep = game if game is not None else make_game()
+        if game is None:
+            try:
+                game = make_game()
+            except Exception as e:      # the library refused / crashed on a valid construction
+                ctx.spec_fail("exception:constructor", "constructor raised %s: %s" % (type(e).__name__, e), {"call": cur.get("call")})
+                return
+        ctor, g, T, cls, is_poly, rep = game
         exact = cls in ("int", "dyad")
         env = Fraction(0) if exact else Fraction(1e-12) * Fraction(envelope_scale(T))
         ctx.count("ctor:" + ctor.split()[0][5:])
         ctx.count("class:" + cls)
         ctx.count("N=%d" % T.N)
         replay = {"ctor": rep, "ops": []}
-        check_views(ctx, g, T, "after construction", replay)
+
+        def views(where):
+            try:
+                check_views(ctx, g, T, where, replay)
+                return True
+            except Exception as e:
+                ctx.spec_fail("exception:views", "%s: reading the game raised %s: %s" % (where, type(e).__name__, e), replay)
+                return False
+        if not views("after construction"):
+            return
         L = rng.randint(1, 4) if names is None else len(names)
         toks, outs, env_ops = [], ["-#" + state_str(g)], set()
         big = T.N >= 2 and sum(1 for n in T.nums if n >= 2) >= 2
         for k in range(L):
             name = rng.choices(alphabet, weights)[0] if names is None else names[k]
-            res = do_op(g, T, cls, is_poly, name, replay)
+            cur["call"] = name
+            try:
+                res = do_op(g, T, cls, is_poly, name, replay)
+            except Exception as e:      # a valid call raised: a failing input, not a tool failure
+                ctx.spec_fail("exception:" + name, "%s raised %s: %s" % (cur.get("call"), type(e).__name__, e),
+                              dict(replay, call=cur.get("call")))
+                break
             if res is None:
                 continue
             tok, out, g, T, is_poly = res
@@ -786,7 +932,8 @@ def run(ctx):
                 env_ops.add(len(toks))
             outs.append(out + "#" + state_str(g))
             # definition-level check of every view after every call
-            check_views(ctx, g, T, "after call %d (%s)" % (len(toks), tok.split(":")[0]), replay)
+            if not views("after call %d (%s)" % (len(toks), tok.split(":")[0])):
+                break
             ctx.count("call:" + tok.split(":")[0])
             env = max(env, Fraction(0) if exact else Fraction(1e-12) * Fraction(envelope_scale(T)))
         ctx.count("history-length=%d" % len(toks))
@@ -794,7 +941,7 @@ def run(ctx):
         cases.append(Case(line, "|".join(outs), nontrivial=big and len(toks) >= 1, cmp=make_cmp(env_ops, env),
                           tag="history", meta=replay))
 
-    for _ in range(ctx.n(420, 4000)):
+    for _ in range(ctx.n(2000, 20000)):
         history()
 
     # ---- every pair / triple of state-changing and observing calls on small games -------------------------
